@@ -55,13 +55,13 @@ CHECKS = {
    technique="runtime monitoring: id/nonce echo + health re-check oracle over sequential multiplexed establishments, schedule perturbation at hook points"),
  "C09": dict(
    category="exploration",
-   text="Runtime monitor: histories of unmatched / duplicate / late / expiry-aligned broker operations (the expiry alignment is produced deterministically by blocking the expiry goroutine at a hook point) (incl. a second dial to an id whose waiting accept was already served, and an id that is announced twice after a dial to it timed out) on MuxBroker, GRPCBroker and multiplexed GRPCBroker, each followed by matched pairs on fresh ids in both directions and a close; oracle: every call returns (nominal 5 s, hang threshold 40 s), unmatched calls fail, fresh pairs succeed, a final close racing with listener announcements lets every call return, no goroutine with broker frames remains after all clients are closed. The defects it found (D5, D6 stale knock, D19 leaked knock listener) are repaired; known_findings.json holds only fixed entries.",
+   text="Runtime monitor: histories of unmatched / duplicate / late / expiry-aligned broker operations (the expiry alignment is produced deterministically by blocking the expiry goroutine at a hook point) (incl. a second dial to an id whose waiting accept was already served, an id that is announced twice after a dial to it timed out, a late accept whose ack arrives while another dial is waiting) on MuxBroker, GRPCBroker and multiplexed GRPCBroker, each followed by matched pairs on fresh ids in both directions and a close; oracle: every call returns (nominal 5 s, hang threshold 40 s), unmatched calls fail, fresh pairs succeed, a final close racing with listener announcements lets every call return, no goroutine with broker frames remains after all clients are closed. The defects it found (D5, D6 stale knock, D19 leaked knock listener) are repaired; known_findings.json holds only fixed entries.",
    design_ref="DESIGN.md section 3, C09 and section 4 (D5, D6)",
    note="Bounded-progress reading of liveness; thresholds are generous so a loaded machine cannot manufacture alarms.",
    technique="runtime monitoring: bounded-progress oracle over fault histories with hook-controlled line-up, goroutine-dump leak monitor"),
  "C13": dict(
    category="exploration",
-   text="Runtime monitor: ~620 (quick) / ~6k (thorough) (file, hash function, checksum) triples incl. every single-bit flip and every proper prefix of the digest; the target is a script that writes a launch marker as its first action; the oracle computes the digest independently and requires launched <=> checksum == H(file) and the corresponding error; plus histories of 2-4 launches of one path through one shared SecureConfig value with the file atomically replaced in between, and command paths through directory symlinks with '..', file symlinks, relative paths and an argv[0] that names another file (hashed file must be the executed file), and RunnerFunc clients with a SecureConfig (nothing may be launched).",
+   text="Runtime monitor: ~620 (quick) / ~6k (thorough) (file, hash function, checksum) triples incl. every single-bit flip and every proper prefix of the digest (also for files whose digest ends in zero bytes); the target is a script that writes a launch marker as its first action; the oracle computes the digest independently and requires launched <=> checksum == H(file) and the corresponding error; plus histories of 2-4 launches of one path through one shared SecureConfig value with the file atomically replaced in between, and command paths through directory symlinks with '..', file symlinks, relative paths and an argv[0] that names another file (hashed file must be the executed file), and RunnerFunc clients with a SecureConfig (nothing may be launched).",
    design_ref="DESIGN.md section 3, C13",
    note="Digest computed with Go's crypto packages in the driver; launch observed through the marker file and exec.Cmd.Process.",
    technique="runtime monitoring: launch-marker oracle against an independently computed digest, exhaustive single-bit/prefix sub-spaces"),
@@ -73,13 +73,13 @@ CHECKS = {
    technique="runtime monitoring: /proc + cleanup-marker oracle over real subprocess shutdown behaviours, race detector"),
  "C02": dict(
    category="exploration",
-   text="Runtime monitor: one real plugin subprocess per (host version set, plugin version set) pair over versions 0-4 (and over {2,9,10,11,100}: different digit counts) with versioned / legacy / mixed layouts and per-version wire protocols; every plugin set carries a version tag reported by the dispensed implementation and by the host-side wrapper; half the cases also run the plugin directly with a chosen PLUGIN_PROTOCOL_VERSIONS to read the raw announced line. Relaunch cases start a second plugin (other version sets) through the same ClientConfig object; overlap cases give the host a ProtocolVersion that also has its own VersionedPlugins entry while Plugins holds another version's set. Oracle = set arithmetic (highest common version, lowest when no list, incompatible-version error + terminated process when disjoint). Thorough is exhaustive over all 31x31 subset pairs.",
+   text="Runtime monitor: one real plugin subprocess per (host version set, plugin version set) pair over versions 0-4 (and over {2,9,10,11,100}: different digit counts) with versioned / legacy / mixed layouts and per-version wire protocols; every plugin set carries a version tag reported by the dispensed implementation and by the host-side wrapper; half the cases also run the plugin directly with a chosen PLUGIN_PROTOCOL_VERSIONS to read the raw announced line. Relaunch cases start a second plugin (other version sets) through the same ClientConfig object; overlap cases give the host a ProtocolVersion that also has its own VersionedPlugins entry while Plugins holds another version's set; handshake-only cases give it a handshake ProtocolVersion it registered nothing for. Oracle = set arithmetic (highest common version, lowest when no list, incompatible-version error + terminated process when disjoint). Thorough is exhaustive over all 31x31 subset pairs.",
    design_ref="DESIGN.md section 3, C02",
    note="Sets registered under one version use the same wire protocol on both sides; GRPCServer configured whenever a plugin-side set is gRPC.",
    technique="runtime monitoring: version-tag echo + raw handshake line capture, set-arithmetic oracle (exhaustive in thorough)"),
  "C03": dict(
    category="fault_enumeration",
-   text="Fault enumeration by runtime monitor: named crash points (hook points inside go-plugin armed to SIGKILL / os.Exit, points in the scripted plugin, external SIGKILL while idle and at seeded instants under traffic, plugins that printed more lines with the handshake line and later exit by themselves, a host-side hook point that kills the plugin while a broker message sits between the host's stream goroutine and the wire, a SyncStdout pipe that the host drains only after Kill returned) x three protocols x the host operation in flight, on real subprocesses; every in-flight and subsequent host call is recorded at the API boundary and must return within the hang threshold, with an error where it needed the plugin; Exited() and the gRPC client context are polled as bounded progress after the observed death; the host child must survive.",
+   text="Fault enumeration by runtime monitor: named crash points (hook points inside go-plugin armed to SIGKILL / os.Exit, points in the scripted plugin, external SIGKILL while idle and at seeded instants under traffic, plugins that printed more lines with the handshake line and later exit by themselves, a host-side hook point that kills the plugin while a broker message sits between the host's stream goroutine and the wire, a SyncStdout pipe that the host drains only after Kill returned, a stream the plugin dialled that sits unaccepted in the host's broker) x three protocols x the host operation in flight, on real subprocesses; every in-flight and subsequent host call is recorded at the API boundary and must return within the hang threshold, with an error where it needed the plugin; Exited() and the gRPC client context are polled as bounded progress after the observed death; the host child must survive.",
    design_ref="DESIGN.md section 3, C03",
    note="Nominal bounds <= 6 s, hang threshold 24 s; a crash point that is never reached makes the case inconclusive.",
    technique="runtime monitoring: crash-point injection via hook points and signals, call/return log judged against a needs-the-plugin table"),
@@ -115,7 +115,7 @@ CHECKS = {
    technique="runtime monitoring: reference state machine + porcupine register linearizability over recorded histories"),
  "C18": dict(
    category="exploration",
-   text="Runtime monitor: seeded histories of dispenses / brokered connections in both directions / stdio / a brokered listener the plugin keeps open / plugin code announcing brokered servers from a background worker across the shutdown, followed by Kill (optionally racing with listener announcements), plus in-process test-mode servers cancelled after no / one host used them, over protocol x TLS x launch method, real subprocesses with private sandboxes on both sides; after a graceful exit (cleanup marker present) the monitor lists both sandboxes for socket files and plugin-dir* directories and compares a goroutine dump of the host (filtered on go-plugin frames) with the count before the case, polling up to 10 s.",
+   text="Runtime monitor: seeded histories of dispenses / brokered connections in both directions / stdio / a brokered listener the plugin keeps open / plugin code announcing brokered servers from a background worker across the shutdown / a brokered id announced twice and never dialled, followed by Kill (optionally racing with listener announcements), plus in-process test-mode servers cancelled after no / one host used them, over protocol x TLS x launch method, real subprocesses with private sandboxes on both sides; after a graceful exit (cleanup marker present) the monitor lists both sandboxes for socket files and plugin-dir* directories and compares a goroutine dump of the host (filtered on go-plugin frames) with the count before the case, polling up to 10 s.",
    design_ref="DESIGN.md section 3, C18",
    note="One case at a time per host process so that goroutines are attributable; only graceful exits are judged.",
    technique="runtime monitoring: file-system listing + goroutine-dump leak monitor after graceful shutdown"),
